@@ -1266,14 +1266,17 @@ def targeted_programs():
 def selftest(names=None):
     """Run the binding on the unchanged code and under each in-process mutant (installed in the
     worker processes only).  Prints one line per configuration."""
-    names = names or ["none", "setdeps", "norestore", "np-norestore", "setparams", "hashparams",
-                      "timeout-reject", "activation-in-check-order", "tiebreak-random"]
+    names = names or ["none", "setdeps", "restore-accepted-only", "unsorted-required-props", "norestore", "np-norestore",
+                      "setparams", "hashparams", "timeout-reject", "activation-in-check-order", "tiebreak-random"]
     gen, _ = gen_programs(seed() * 104729 + 15, 8, 20)
     rows = []
     for m in names:
         ck = DryCheck()
         t0 = time.time()
         items = targeted_programs() + ([canary()] + gen if m in ("none", "fix-ordered", "setdeps") else [])
+        if m in ("none", "restore-accepted-only", "unsorted-required-props"):
+            items = ([geom_case(0)] + leak_probes() + [class_case(CLASS_TEMPLATES[k]) for k in (0, 2, 3)]
+                     + (items if m == "none" else targeted_programs()[2:5]))
         stats = main("quick", mutant=None if m == "none" else m, ck=ck, items=items, nproc=5)
         nv = sum(1 for kind, _ in ck.reported if kind == "violation")
         nk = sum(1 for kind, _ in ck.reported if kind == "known")
